@@ -3,8 +3,10 @@
 package tb
 
 import (
+	"encoding/json"
 	"fmt"
 	"os"
+	"path/filepath"
 	"sort"
 	"strings"
 	"sync"
@@ -378,9 +380,79 @@ func TestC20(t *testing.T) {
 		r.Explore(mc.Config{Name: fmt.Sprintf("shutdown-p%d", sb), Serial: true, SplitDepth: 4, DevBound: sb,
 			Rule: fmt.Sprintf("the pairs {W1,W2}, {W1,R} with a concurrent Store.Stop at every point (at most %d preemptions): Stop returns, the file opens again with the same root, every acknowledged write is present, hashes consistent", sb)},
 			c20Body(t, [][]int{{0, 1}, {0, 2}}, true, sb))
+		if i, _ := mc.Shard(); i == 0 {
+			c20RacePart(r)
+		}
 		r.Assume("a cooperative scheduler cannot see data races: the race clause is decided by the separate free-running `go test -race` pass (part race-pass, sampling, reported as such)")
 		r.Assume("goroutine interleavings between two scheduling points are not enumerated; SQLite busy-waits sleep on the virtual clock")
 	})
+}
+
+// c20RacePart folds in the free-running `go test -race` pass that run.sh
+// executed before this binary (TestC20Race in a -race build without gates).
+func c20RacePart(r *mc.Report) {
+	dir := os.Getenv("VERIF_RACE_DIR")
+	if dir == "" {
+		fmt.Fprintln(os.Stderr, "HARNESS-ERROR: C20 must be started through run.sh (race pass result missing)")
+		os.Exit(3)
+	}
+	b, err := os.ReadFile(dir + "/race_out.json")
+	var res struct {
+		Iterations int     `json:"iterations"`
+		Threads    int     `json:"threads_per_iteration"`
+		WallS      float64 `json:"wall_s"`
+	}
+	if err != nil || json.Unmarshal(b, &res) != nil || res.Iterations == 0 {
+		fmt.Fprintln(os.Stderr, "HARNESS-ERROR: race pass produced no result:", err)
+		os.Exit(3)
+	}
+	p := r.Part("race-pass", "SAMPLING, not exhaustive: the same client threads (plus a new-root-edge writer against root readers and a shutdown) free-running on the asynchronous bus, all cores, real time, built with -race and without the gate overlay; a race report whose racing access is in simpleiot code is a violation")
+	p.Cases(int64(res.Iterations), int64(res.Iterations))
+	p.Cap("sampling (free-running schedules)")
+	files, _ := filepath.Glob(dir + "/race_report*")
+	for _, f := range files {
+		txt, _ := os.ReadFile(f)
+		for _, blk := range strings.Split(string(txt), "==================") {
+			if !strings.Contains(blk, "WARNING: DATA RACE") {
+				continue
+			}
+			// top frames of the two racing accesses
+			var tops []string
+			lines := strings.Split(blk, "\n")
+			for i, l := range lines {
+				if (strings.HasPrefix(l, "Write at") || strings.HasPrefix(l, "Read at") || strings.HasPrefix(l, "Previous")) && i+2 < len(lines) {
+					tops = append(tops, strings.TrimSpace(lines[i+1])+" "+strings.TrimSpace(lines[i+2]))
+				}
+			}
+			inRepo, inHarness := false, true
+			for _, tp := range tops {
+				if strings.Contains(tp, "/repo/") {
+					inRepo = true
+				}
+				if !strings.Contains(tp, "/verif/") {
+					inHarness = false
+				}
+			}
+			switch {
+			case inRepo:
+				fn := "?"
+				for _, tp := range tops {
+					if strings.Contains(tp, "/repo/") {
+						fn = strings.Fields(tp)[0]
+						break
+					}
+				}
+				p.Violation("data-race/"+fn, "race detector report:\n"+blk, map[string]any{"report": blk})
+			case inHarness:
+				fmt.Fprintln(os.Stderr, "HARNESS-ERROR: data race inside the harness/shim:\n"+blk)
+				os.Exit(3)
+			default:
+				r.Inconclusive("race report outside simpleiot code (library): " + strings.Join(tops, " | "))
+			}
+		}
+	}
+	p.Done()
+	r.Extra("race_pass", map[string]any{"iterations": res.Iterations, "threads_per_iteration": res.Threads, "wall_s": res.WallS, "kind": "sampling"})
 }
 
 func init() {
